@@ -242,6 +242,9 @@ func (vc *VC) checkPosts(st *State, n ast.Node) {
 	}
 	vc.cover(st, nil, retTag+":reachable").Soft = true
 	if vc.con == nil {
+		// sweep units get the canary too; it is solved when registries are written and in the thorough tier
+		can := &Oblig{Name: vc.oblName("canary", nil, retTag+":false-not-provable"), Kind: "canary", Unit: vc.unit, NLog: len(vc.log), PC: st.pc, Goal: False, vc: vc, Budget: 2}
+		vc.obls = append(vc.obls, can)
 		return
 	}
 	// vacuity canary: `false` must NOT be provable at a return of a unit under contract. Covers drop quantified facts (the
